@@ -41,6 +41,8 @@ BIN_PAIRS = [
     ("efficiency_wei|bin(local)", lambda W: bct.efficiency_wei(W, local=True), lambda W: bct.efficiency_bin(W, local=True), True),
     ("efficiency_wei('global')|bin(global)", lambda W: bct.efficiency_wei(W, local="global"), bct.efficiency_bin, True),
     ("efficiency_wei('local')|bin(local)", lambda W: bct.efficiency_wei(W, local="local"), lambda W: bct.efficiency_bin(W, local=True), True),
+    ("efficiency_wei(1)|bin(1)(local)", lambda W: bct.efficiency_wei(W, local=1), lambda W: bct.efficiency_bin(W, local=1), True),
+    ("efficiency_wei(np.True_)|bin(True)(local)", lambda W: bct.efficiency_wei(W, local=np.True_), lambda W: bct.efficiency_bin(W, local=True), True),
     ("strengths_und|degrees_und", bct.strengths_und, bct.degrees_und, True),
     ("strengths_dir|degrees_dir", bct.strengths_dir, _third(bct.degrees_dir), False),
     ("assortativity_wei|bin(0)", lambda W: bct.assortativity_wei(W, 0), lambda W: bct.assortativity_bin(W, 0), True),
